@@ -73,6 +73,41 @@ class TakeWhileIter:
         self.it, self.clos, self.done = it, clos, False
 
 
+class TakeN:
+    __slots__ = ("it", "n")
+
+    def __init__(self, it, n):
+        self.it, self.n = it, n
+
+
+class RevSliceIter:
+    __slots__ = ("s", "i")
+
+    def __init__(self, s):
+        self.s, self.i = s, s.len
+
+
+class MapIter:
+    __slots__ = ("it", "clos")
+
+    def __init__(self, it, clos):
+        self.it, self.clos = it, clos
+
+
+class CopiedIter:
+    __slots__ = ("it",)
+
+    def __init__(self, it):
+        self.it = it
+
+
+class ZipIter:
+    __slots__ = ("a", "b")
+
+    def __init__(self, a, b):
+        self.a, self.b = a, b
+
+
 class ValIter:
     __slots__ = ("v", "i")
 
@@ -150,6 +185,34 @@ def iter_next(I, it, depth):
         ch = raw[:n].decode("utf-8", "surrogatepass")
         it.i += n
         return some(ord(ch))
+    if isinstance(it, TakeN):
+        if it.n <= 0:
+            return NONE()
+        it.n -= 1
+        return iter_next(I, it.it, depth)
+    if isinstance(it, RevSliceIter):
+        if it.i <= 0:
+            return NONE()
+        it.i -= 1
+        return some(ElemRef(it.s, it.i))
+    if isinstance(it, MapIter):
+        r = iter_next(I, it.it, depth)
+        if r.vi == 0:
+            return r
+        return some(call_closure(I, it.clos, [r.fields[0]], depth))
+    if isinstance(it, CopiedIter):
+        r = iter_next(I, it.it, depth)
+        if r.vi == 0:
+            return r
+        return some(deref(I, r.fields[0]))
+    if isinstance(it, ZipIter):
+        ra = iter_next(I, it.a, depth)
+        if ra.vi == 0:
+            return ra
+        rb = iter_next(I, it.b, depth)
+        if rb.vi == 0:
+            return rb
+        return some([ra.fields[0], rb.fields[0]])
     if isinstance(it, TakeWhileIter):
         if it.done:
             return NONE()
@@ -398,8 +461,7 @@ def call(I, fr, name, fname, k, args, depth):
             if iter_next(I, it, depth).vi == 0:
                 break
         return it
-    if name.endswith("Iterator::rev") and isinstance(deref(I, args[0]), RangeIter):
-        raise Unsupported("rev")
+
     if name.endswith("slice::<impl [T]>::chunks_exact"):
         return ChunksIter(as_slice(I, args[0]), args[1])
     if name.endswith("slice::<impl [T]>::chunks"):
@@ -499,6 +561,24 @@ def call(I, fr, name, fname, k, args, depth):
         if o.vi == 0:
             return o
         return some(call_closure(I, args[1], [o.fields[0]], depth))
+    if name.endswith("option::Option::<T>::unwrap_or_else"):
+        o = args[0]
+        return o.fields[0] if o.vi == 1 else call_closure(I, args[1], [], depth)
+    if name.endswith("option::Option::<T>::unwrap_or_default"):
+        o = args[0]
+        return o.fields[0] if o.vi == 1 else 0
+    if name.endswith("option::Option::<T>::map_or_else"):
+        o = args[0]
+        return call_closure(I, args[2], [o.fields[0]], depth) if o.vi == 1 else call_closure(I, args[1], [], depth)
+    if name.endswith("option::Option::<T>::filter"):
+        o = args[0]
+        if o.vi == 0:
+            return o
+        return o if call_closure(I, args[1], [tmp_ref(o.fields[0])], depth) else NONE()
+    if name.endswith("option::Option::<T>::or"):
+        return args[0] if args[0].vi == 1 else args[1]
+    if name.endswith("option::Option::<T>::unwrap_unchecked"):
+        return args[0].fields[0]
     if name.endswith("option::Option::<T>::and_then"):
         o = args[0]
         if o.vi == 0:
@@ -565,6 +645,58 @@ def call(I, fr, name, fname, k, args, depth):
     if name.endswith("arch::x86_64::_tzcnt_u64") or name.endswith("arch::x86_64::_mm_tzcnt_64"):
         a = args[0] & ((1 << 64) - 1)
         return 64 if a == 0 else (a & -a).bit_length() - 1
+    if name.endswith("alloc::Layout::from_size_align") or name.endswith("alloc::layout::Layout::from_size_align"):
+        return ok(Adt("core::alloc::Layout", 0, "Layout", [args[0], args[1]]))
+    if name.endswith("alloc::Layout::from_size_align_unchecked"):
+        return Adt("core::alloc::Layout", 0, "Layout", [args[0], args[1]])
+    if name in ("std::alloc::alloc", "alloc::alloc::alloc", "std::alloc::alloc_zeroed", "alloc::alloc::alloc_zeroed"):
+        lay = args[0]
+        return Ptr([0] * lay.fields[0], 0, 1, 1)
+    if name.endswith("alloc::dealloc") or name.endswith("mem::forget") or name.endswith("mem::drop"):
+        return []
+    if name.endswith("alloc::realloc"):
+        p0 = to_ptr(I, args[0])
+        new = [0] * args[2]
+        old = p0.heap[p0.off:]
+        new[:min(len(old), len(new))] = old[:min(len(old), len(new))]
+        return Ptr(new, 0, 1, 1)
+    if name.endswith("alloc::handle_alloc_error"):
+        raise Panic("allocation failure")
+    if re.search(r"ptr::(const_ptr|mut_ptr)::<impl \*(const|mut) T>::is_null$", name):
+        return 0
+    if name.endswith("ptr::NonNull::<T>::new"):
+        return some(args[0])
+    if name.endswith("ptr::NonNull::<T>::new_unchecked") or name.endswith("ptr::NonNull::<T>::as_ptr") or name.endswith("ptr::NonNull::<T>::cast"):
+        return args[0]
+    if name.endswith("ptr::NonNull::<T>::dangling"):
+        g = k.get("g", [])
+        from .minimir import pointee_size as _ps
+
+        return Ptr([], 0, (_ps(g[0]) if g else None) or 1, 1)
+    if re.search(r"ptr::mut_ptr::<impl \*mut T>::write$", name) or name.endswith("ptr::write"):
+        p0 = to_ptr(I, args[0])
+        v = args[1]
+        if not isinstance(v, int):
+            raise Unsupported("ptr.write of %r" % (v,))
+        p0.store([(v >> (8 * i)) & 0xFF for i in range(p0.esz)])
+        return []
+    if re.search(r"ptr::(const_ptr|mut_ptr)::<impl \*(const|mut) T>::read$", name) or name.endswith("ptr::read"):
+        p0 = to_ptr(I, args[0])
+        b = p0.load(p0.esz)
+        return sum(x << (8 * i) for i, x in enumerate(b))
+    if name.endswith("intrinsics::copy_nonoverlapping") or name.endswith("ptr::copy_nonoverlapping"):
+        src, dst = to_ptr(I, args[0]), to_ptr(I, args[1])
+        data = src.load(args[2] * src.esz)
+        dst.store(data)
+        return []
+    if name.endswith("slice::from_raw_parts") or name.endswith("slice::raw::from_raw_parts"):
+        p0 = to_ptr(I, args[0])
+        n = args[1]
+        if n == 0:
+            return Slice([], 0, 0, p0.esz)
+        raw = p0.load(n * p0.esz)
+        vals = [sum(raw[i * p0.esz + j] << (8 * j) for j in range(p0.esz)) for i in range(n)]
+        return Slice(vals, 0, n, p0.esz)
     if name.endswith("vec::Vec::<T>::new") or name.endswith("vec::Vec::<T>::with_capacity") or name.endswith("vec::Vec::<T, A>::new_in"):
         return []
     if name.endswith("vec::Vec::<T, A>::push"):
@@ -605,6 +737,102 @@ def call(I, fr, name, fname, k, args, depth):
     if name.endswith("vec::Vec::<T, A>::is_empty"):
         v = deref(I, args[0])
         return int(len(v if isinstance(v, list) else v.b) == 0)
+    if (name.endswith("ops::DerefMut>::deref_mut") or fname.endswith("ops::DerefMut::deref_mut") or name.endswith("vec::Vec::<T, A>::as_mut_slice")) and isinstance(deref(I, args[0]), list):
+        v = deref(I, args[0])
+        return Slice(v, 0, len(v))
+    if name.endswith("convert::AsRef<[T]>>::as_ref") or fname.endswith("convert::AsRef::as_ref") or name.endswith("convert::AsMut<[T]>>::as_mut"):
+        v = deref(I, args[0])
+        if isinstance(v, list):
+            return Slice(v, 0, len(v))
+        if isinstance(v, (Slice, StrBuf)):
+            return as_slice(I, v)
+        raise Unsupported("as_ref on %r" % (v,))
+    if name.endswith("slice::<impl [T]>::to_vec") or name.endswith("slice::hack::to_vec"):
+        sl = as_slice(I, args[0])
+        return list(sl.heap[sl.start:sl.start + sl.len])
+    if name.endswith("vec::from_elem"):
+        import copy as _copy
+
+        return [_copy.deepcopy(args[0]) for _ in range(args[1])]
+    if name.endswith("vec::Vec::<T, A>::extend_from_slice"):
+        v = deref(I, args[0])
+        sl = as_slice(I, args[1])
+        v.extend(sl.heap[sl.start:sl.start + sl.len])
+        return []
+    if name.endswith("vec::Vec::<T, A>::resize"):
+        v = deref(I, args[0])
+        n = args[1]
+        if n < len(v):
+            del v[n:]
+        else:
+            v.extend([args[2]] * (n - len(v)))
+        return []
+    if name.endswith("vec::Vec::<T, A>::insert"):
+        v = deref(I, args[0])
+        v.insert(args[1], args[2])
+        return []
+    if name.endswith("vec::Vec::<T, A>::capacity"):
+        return len(deref(I, args[0]))
+    if name.endswith("slice::<impl [T]>::last_mut") or name.endswith("slice::<impl [T]>::first_mut"):
+        s_ = as_slice(I, args[0])
+        if not s_.len:
+            return NONE()
+        return some(ElemRef(s_, s_.len - 1 if name.endswith("last_mut") else 0))
+    if name.endswith("slice::<impl [T]>::iter_mut"):
+        return SliceIter(as_slice(I, args[0]))
+    if name.endswith("slice::<impl [T]>::partition_point"):
+        s_ = as_slice(I, args[0])
+        lo, hi = 0, s_.len
+        while lo < hi:
+            mid = (lo + hi) // 2
+            if call_closure(I, args[1], [ElemRef(s_, mid)], depth):
+                lo = mid + 1
+            else:
+                hi = mid
+        return lo
+    if name.endswith("slice::<impl [T]>::binary_search"):
+        s_ = as_slice(I, args[0])
+        x = deref(I, args[1])
+        vals = s_.heap[s_.start:s_.start + s_.len]
+        import bisect
+
+        i = bisect.bisect_left(vals, x)
+        if i < len(vals) and vals[i] == x:
+            return ok(i)
+        return err(i)
+    if name.endswith("Iterator::take") or name.endswith("Iterator>::take"):
+        return TakeN(args[0], args[1])
+    if name.endswith("Iterator::rev") or name.endswith("DoubleEndedIterator>::rev") or name.endswith("Iterator>::rev"):
+        it = args[0]
+        if isinstance(it, RangeIter):
+            return ValIter(list(range(it.end - 1, it.cur - 1, -1)))
+        if isinstance(it, RangeIncl):
+            return ValIter(list(range(it.hi, it.lo - 1, -1)) if not it.done else [])
+        if isinstance(it, SliceIter):
+            return RevSliceIter(it.s)
+        raise Unsupported("rev on %r" % (it,))
+    if name.endswith("Iterator::sum") or name.endswith("Iterator>::sum"):
+        tot = 0
+        while True:
+            r = iter_next(I, args[0], depth)
+            if r.vi == 0:
+                return tot
+            tot += deref(I, r.fields[0])
+    if name.endswith("Iterator::map") or name.endswith("Iterator>::map"):
+        return MapIter(args[0], args[1])
+    if name.endswith("Iterator::copied") or name.endswith("Iterator::cloned"):
+        return CopiedIter(args[0])
+    if name.endswith("Iterator::zip"):
+        return ZipIter(args[0], args[1] if not isinstance(deref(I, args[1]), (list, Slice)) else SliceIter(as_slice(I, args[1])))
+    if name.endswith("Iterator::min") or name.endswith("Iterator::max"):
+        best = None
+        while True:
+            r = iter_next(I, args[0], depth)
+            if r.vi == 0:
+                return some(best) if best is not None else NONE()
+            v = deref(I, r.fields[0])
+            if best is None or (v < best if name.endswith("min") else v >= best):
+                best = v
     if (name.endswith("ops::Deref>::deref") or fname.endswith("ops::Deref::deref")) and isinstance(deref(I, args[0]), list):
         v = deref(I, args[0])
         return Slice(v, 0, len(v))
@@ -820,7 +1048,7 @@ def call(I, fr, name, fname, k, args, depth):
                 raise Panic("get_unchecked index %d out of bounds (len %d): undefined behaviour" % (i, s.len))
             return ElemRef(s, i)
         raise Unsupported("get_unchecked with %r" % (i,))
-    if name.endswith("slice::<impl [T]>::get"):
+    if name.endswith("slice::<impl [T]>::get") or name.endswith("slice::<impl [T]>::get_mut"):
         s = as_slice(I, args[0])
         i = args[1]
         if isinstance(i, int):
@@ -841,6 +1069,10 @@ def call(I, fr, name, fname, k, args, depth):
         r = args[1]
         if isinstance(r, RangeIter):
             a, b = r.cur, r.end
+        elif isinstance(r, RangeIncl):
+            a, b = r.lo, r.hi + 1
+        elif isinstance(r, Adt) and r.path.endswith("RangeToInclusive"):
+            a, b = 0, r.fields[0] + 1
         elif isinstance(r, Adt) and r.path.endswith("RangeFrom"):
             a, b = r.fields[0], s.len
         elif isinstance(r, Adt) and r.path.endswith("RangeTo"):
@@ -925,6 +1157,18 @@ def call(I, fr, name, fname, k, args, depth):
         if meth == "saturating_add":
             hi = (1 << (bits - 1)) - 1 if signed else (1 << bits) - 1
             return min(a + args[1], hi)
+        if meth == "saturating_mul":
+            hi = (1 << (bits - 1)) - 1 if signed else (1 << bits) - 1
+            lo = -(1 << (bits - 1)) if signed else 0
+            return max(lo, min(a * args[1], hi))
+        if meth == "checked_div":
+            return NONE() if args[1] == 0 else some(a // args[1])
+        if meth == "is_power_of_two":
+            return int(ua != 0 and (ua & (ua - 1)) == 0)
+        if meth == "next_power_of_two":
+            return 1 if ua <= 1 else 1 << (ua - 1).bit_length()
+        if meth == "abs_diff":
+            return abs(a - args[1])
         if meth == "count_ones":
             return bin(ua).count("1")
         if meth == "count_zeros":
@@ -947,6 +1191,8 @@ def call(I, fr, name, fname, k, args, depth):
             return wrap(((ua >> r) | (ua << (bits - r))) & ((1 << bits) - 1), ty)
         if meth == "trailing_ones":
             return call(I, fr, name.replace("trailing_ones", "trailing_zeros"), fname, k, [wrap(~a, ty)], depth)
+        if meth == "clamp":
+            return max(args[1], min(a, args[2]))
         if meth == "min":
             return min(a, args[1])
         if meth == "max":
@@ -1003,6 +1249,8 @@ def call(I, fr, name, fname, k, args, depth):
                 return int(num)
             return int(alpha or num)
         raise Unsupported("char method %s" % meth)
+    if fname.endswith("cmp::Ord::clamp") or (name.endswith("::clamp") and "cmp" in name):
+        return max(args[1], min(args[0], args[2]))
     if fname.endswith("cmp::Ord::min") or name.endswith("::min") and "cmp" in name:
         return min(args[0], args[1])
     if fname.endswith("cmp::Ord::max") or name.endswith("::max") and "cmp" in name:
